@@ -212,6 +212,11 @@ def gen_case(rng, quick=True):
         case['idle'] = [bool(names) and rng.random() < 0.6 or rng.random() < 0.1 for names in case['observers']]
     if strat in ('es', 'dw', 'cell') and rng.random() < 0.1:
         case['reeval_legs'] = True      # started with reevaluate_at_end=True: every leg ends with evaluate_final_combi on the live object
+    if strat in ('es', 'dw'):
+        # axis (j): after a stop the CALLER mutates in place the arrays it passed at construction (domain bounds a, b, reference solution)
+        # without passing them again; the instance must go on as if it had received values (the cell scheme, outside the quantifier,
+        # keeps reading the caller's bounds and is left out)
+        case['mutate'] = [rng.random() < 0.3 for _ in range(case['steps'] + 1)]
     if strat in ('es', 'dw', 'cell'):
         case['single_runs'] = rng.random() < 0.6      # the two uninterrupted comparison runs (reevaluate_at_end on/off, solutions_storage)
     if not in_scope(case):
@@ -498,6 +503,9 @@ def impl_run(case):
                 pre = dict(reported=A.vec(r0[2]), fresh=fresh0, scale=scale0, rule=_rule(sc, case))
             r = sc.perform_operation(case['lmin'], case['lmax'])
         fresh, scale, _ = _fresh_total(sc, case)
+        if case.get('oracle_only'):        # axis (k): sizes beyond the gates of the source under test - reported value against the recomputation
+            return dict(reported=A.vec(r[2]), fresh=fresh, scale=scale, pre=None, points=int(sum(np.prod(sc.grid.levelToNumPoints(g.levelvector)) for g in sc.scheme)),
+                        scheme=[[[int(x) for x in g.levelvector], A.fl(g.coefficient)] for g in sc.scheme])
         return dict(reported=A.vec(r[2]), fresh=fresh, scale=scale, rule=_rule(sc, case), pre=pre,
                     scheme=[[[int(x) for x in g.levelvector], A.fl(g.coefficient)] for g in sc.scheme])
     if strat == 'da':
@@ -522,6 +530,7 @@ def impl_run(case):
         A.cont(sa, -1.0, 1, 1)
         sa, op, f, eo = _build(case, op=op)
         offset = len(op.events)
+    caller = dict(A.CALLER_OBJECTS) if case.get('mutate') else None      # handles on the arrays handed to grid / operation / strategy
     stops, rets = [], []
     kw0 = _perform_kw(case)
     if case.get('reeval_legs'):
@@ -538,6 +547,12 @@ def impl_run(case):
         if names:
             rec['observed'] = _observe(sa, op, case, names)
             rec['after_observers'] = _live_state(sa, op, case)
+        if k < len(case.get('mutate') or []) and case['mutate'][k] and caller is not None:
+            caller['a'][...] = caller['a'] - 0.5
+            caller['b'][...] = caller['b'] + 0.25
+            if caller['ref'] is not None:
+                caller['ref'][...] = 7.0
+            rec['caller_mutated'] = True
         if k < len(case.get('idle') or []) and case['idle'][k]:
             # a leg without refinement: continue_adaptive_refinement evaluates the (empty set of) new objects and stops again
             ret = A.cont(sa, -1.0, 1, 1)
@@ -760,6 +775,7 @@ def run_adaptive_checks(chk, case, r, mjobs):
         oracle_bad_any = False
         recalc_fired = False
         stale_any = False
+        caller_mutated = False
         for k, st in enumerate(r['stops']):
             fk = dict(case, steps=st.get('loop_k', k))
             scale = [Fraction(A.unfl(x)) for x in st['scale']]
@@ -773,6 +789,8 @@ def run_adaptive_checks(chk, case, r, mjobs):
                 sum_ok = all(close(rep[j], sums[j], scale[j]) for j in range(nout))
             if k > 0 and r['stops'][k - 1].get('reinit'):
                 recalc_fired = True
+            if k > 0 and r['stops'][k - 1].get('caller_mutated'):
+                caller_mutated = True
             if recalc_fired and strat == 'es' and not ((indep_ok or not scope) and sum_ok):
                 # reinit_new_objects (recalculate_frequently / refinement_container) resets refinement.value and marks every area new,
                 # operation.integral is kept: every area is counted twice (C05_recalculate_unchanged_refuted); later stops of this
@@ -788,6 +806,14 @@ def run_adaptive_checks(chk, case, r, mjobs):
                 chk.traces += 1
                 return
             bad_here = False
+            if caller_mutated and scope and not indep_ok:
+                # axis (j): the caller changed in place the bounds / reference arrays it had passed at construction; the instance (its grid)
+                # read them again instead of having kept values
+                chk.violation('oracle:combination', 'caller-mutated-bounds-read-again', sig, fk,
+                              dict(stop=k, reported=[A.unfl(x) for x in rep], independent=[A.unfl(x) for x in st['fresh']],
+                                   how='after an earlier stop the caller did a[...] = a - 0.5; b[...] = b + 0.25 on the arrays given to grid / operation / strategy'))
+                chk.traces += 1
+                return
             if scope and not indep_ok:
                 bad_here = True
                 chk.violation('oracle:combination', 'combination-differs', sig, fk,
@@ -910,7 +936,7 @@ def run_adaptive_checks(chk, case, r, mjobs):
         if r.get('storage_aliased'):
             chk.violation('oracle:combination', 'result-aliased', dict(sig, via='solutions_storage'), dict(case, steps=nst - 1, limit=r['points'] - 1),
                           dict(why='entries of solutions_storage share one array (or the live accumulator)'))
-        if same_as_stepwise and 'storage' in r:
+        if same_as_stepwise and 'storage' in r and not any(st.get('caller_mutated') for st in r['stops']):
             store = {k: v for k, v in r['storage']}
             npts = [st['points'] for st in r['stops']]
             for k, st in enumerate(r['stops']):
@@ -1155,6 +1181,46 @@ CORPUS = [
 ]
 
 
+GATE_SCOPE_C05 = {
+    'sparseSpACE/GridOperation.py': ['GridOperation', 'AreaOperation', 'Integration', 'Interpolation'],
+    'sparseSpACE/spatiallyAdaptiveBase.py': None, 'sparseSpACE/RefinementContainer.py': None, 'sparseSpACE/StandardCombi.py': None,
+    'sparseSpACE/DimAdaptiveCombi.py': None, 'sparseSpACE/spatiallyAdaptiveExtendSplit.py': None,
+    'sparseSpACE/RefinementObject.py': ['RefinementObject', 'ErrorInfo', 'RefinementObjectExtendSplit', 'RefinementObjectSingleDimension'],
+}
+
+
+def gate_cases():
+    """axis (k): numeric size gates read at run time from the source UNDER TEST on the C05 code path (scan_gates of the C02 check with
+    the C05 scope); per gate g one oracle-only StandardCombi case whose component grids hold just over g points and - where affordable -
+    one dimension-wise run driven until it holds more than g points; plus one fixed case larger than anything run before (> 2**16)"""
+    from . import c02
+    saved = c02.GATE_SCOPE
+    try:
+        c02.GATE_SCOPE = GATE_SCOPE_C05
+        gates = c02.scan_gates()
+    finally:
+        c02.GATE_SCOPE = saved
+    comps = [[[1, [2, 0]], [3, [1, 1]]], [[2, [0, 2]], [1, [0, 0]]]]
+    out = []
+
+    def std_beyond(g):
+        for L in range(2, 16):
+            pts = sum((2 ** (1 + q) + 1) * (2 ** (L - q) + 1) for q in range(L)) + sum((2 ** (1 + q) + 1) * (2 ** (L - 1 - q) + 1) for q in range(L - 1))
+            if pts > g:
+                return dict(strat='std', a=[0, 0], b=[1, 1], comps=comps, ref=None, norm=0, boundary=True, lmin=1, lmax=L, seed=g, oracle_only=True, gate=g)
+    for g in sorted(gates):
+        c = std_beyond(g)
+        if c:
+            out.append(c)
+        if g <= 1500:
+            out.append(dict(strat='dw', a=[0, 0], b=[1, 1], comps=comps, ref=None, norm=0, boundary=True, lmin=1, lmax=2, seed=g, version=6, rebalancing=True,
+                            errcalc=['scripted', g], steps=60, cap=g, single_runs=False, gate=g))
+            out.append(dict(strat='es', a=[0, 0], b=[1, 1], comps=comps, ref=None, norm=0, boundary=True, lmin=1, lmax=2, seed=g, version=0, nrbe=2, auto=False,
+                            errcalc=['scripted', g], steps=60, cap=g, single_runs=False, gate=g))
+    out.append(dict(std_beyond(2 ** 16 + 1), gate='fixed > 2**16'))
+    return gates, out
+
+
 def _count_options(chk, c):
     hist = chk.extra.setdefault('option_histogram', {})
 
@@ -1169,6 +1235,8 @@ def _count_options(chk, c):
     if c['strat'] in ('es', 'dw', 'cell'):
         put('reevaluate_at_end on every leg', bool(c.get('reeval_legs')))
         put('legs without refinement (bare continue_adaptive_refinement)', sum(1 for x in c.get('idle') or [] if x))
+        put('caller mutates a, b, reference in place after a stop', sum(1 for x in c.get('mutate') or [] if x))
+        put('size gate case', c.get('gate', 'no'))
         for names in c.get('observers') or [[]]:
             for nme in (names or ['none']):
                 put('observer between legs', nme)
@@ -1210,6 +1278,9 @@ def run(chk):
     chk.coq_obligations(extra_props=('C05gen',))
     n = chk.n(200, 5000)
     cases = CORPUS + [gen_case(chk.rng, chk.quick) for _ in range(n)]
+    gates, gcases = gate_cases()
+    chk.extra['size_gates_in_source_under_test'] = {str(g): w for g, w in sorted(gates.items())}
+    cases += gcases
     impl = run_impl(impl_run, cases, limit=240)
     # options outside the envelope because the unchanged code raises: still raising?
     probes = [e for e in EXCLUDED if e['probe']]
